@@ -97,7 +97,21 @@ class ExcV:
         self.name = name
 
 
-ELEM_SORT = {"real": R, "int": I, "bool": B}
+# complex numbers: scalars are Cplx(re, im) pairs; array ELEMENTS are values of a z3 record sort
+_Cpx = z3.Datatype("Cpx")
+_Cpx.declare("cpx", ("re", R), ("im", R))
+CPX = _Cpx.create()
+ELEM_SORT = {"real": R, "int": I, "bool": B, "complex": CPX}
+
+
+def cpx_pack(v):
+    if isinstance(v, Cplx):
+        return CPX.cpx(to_real(v.re), to_real(v.im))
+    return CPX.cpx(to_real(v), z3.RealVal(0))
+
+
+def cpx_unpack(t):
+    return Cplx(z3.simplify(CPX.re(t)), z3.simplify(CPX.im(t)))
 
 
 def arr_sort(elem, rank):
@@ -334,8 +348,6 @@ class Engine:
             return tuple(self.fresh_of_type(t, "%s.%d" % (name, i), st) for i, t in enumerate(ty[1]))
         if k == "arr":
             elem, rank = ty[1], ty[2]
-            if elem == "complex":
-                raise OutsideSubset("complex arrays are declared as two real arrays")
             shape = [self.fresh("%s.shape%d" % (name, i), I) for i in range(rank)]
             for s in shape:
                 st.pc.append(s >= 0)
@@ -519,6 +531,9 @@ class Engine:
             return v
         if self.spec_mode and nm in ("True", "False"):
             return nm == "True"
+        if self.spec_mode and nm == "pi":
+            from .calls import PI
+            return PI
         if nm == "np":
             return NpV("np")
         tgt = self.mi.resolve(nm)
@@ -638,10 +653,10 @@ class Engine:
     def binop(self, op, a, b, st, node=None):
         if isinstance(a, tuple) and isinstance(b, tuple) and isinstance(op, ast.Add):
             return a + b
-        if isinstance(a, Cplx) or isinstance(b, Cplx):
-            return self.cplx_binop(op, self.to_cplx(a), self.to_cplx(b), st)
         if isinstance(a, (Ref, Arr)) or isinstance(b, (Ref, Arr)):
             return self.arr_binop(op, a, b, st)
+        if isinstance(a, Cplx) or isinstance(b, Cplx):
+            return self.cplx_binop(op, self.to_cplx(a), self.to_cplx(b), st)
         a, b = num_of_bool(a), num_of_bool(b)
         ka, kb = sort_kind(a), sort_kind(b)
         if ka is None or kb is None:
@@ -723,6 +738,10 @@ class Engine:
         idx = [self.fresh("i", I) for _ in range(rank)]
         ea = self.select(A, idx) if A is not None else a
         eb = self.select(Bv, idx) if Bv is not None else b
+        if A is not None and A.elem == "complex":
+            ea = cpx_unpack(ea)
+        if Bv is not None and Bv.elem == "complex":
+            eb = cpx_unpack(eb)
         save = self.spec_mode
         self.spec_mode += 1        # element-wise op: division obligations handled separately
         try:
@@ -732,8 +751,11 @@ class Engine:
         if isinstance(op, (ast.Div, ast.FloorDiv, ast.Mod)) and not self.spec_mode:
             rng = z3.And([z3.And(i >= 0, i < toz(s)) for i, s in zip(idx, shape)])
             self.emit("div@%s" % self.cur_line, st, z3.ForAll(idx, z3.Implies(rng, toz(eb) != 0)), "div")
-        e = toz(e)
-        elem = sort_kind(e)
+        if isinstance(e, Cplx):
+            e, elem = cpx_pack(e), "complex"
+        else:
+            e = toz(e)
+            elem = sort_kind(e)
         rid = next(self.ids)
         data = self.fresh("ew", arr_sort(elem, rank))
         st.heap[rid] = Arr(data, shape, elem)
@@ -827,6 +849,9 @@ class Engine:
             if at == "imag":
                 return base.im
         if isinstance(base, NpV):
+            if base.path == "np" and at == "pi":
+                from .calls import PI
+                return PI
             return NpV(base.path + "." + at)
         if isinstance(base, ModuleV):
             d = base.dotted + "." + at
@@ -909,7 +934,7 @@ class Engine:
                 return self.slice_read(arr, idx_nodes, st, node)
             sub = self.select(arr, vals)
             if k == arr.rank:
-                return sub
+                return cpx_unpack(sub) if arr.elem == "complex" else sub
             return Arr(sub, arr.shape[k:], arr.elem)       # row / sub-array snapshot
         if isinstance(base, dict):
             raise OutsideSubset("dict subscript")
@@ -1098,8 +1123,10 @@ class Engine:
         raise OutsideSubset("assign target")
 
     def elem_coerce(self, v, elem):
+        if elem == "complex":
+            return cpx_pack(v)
         if isinstance(v, Cplx):
-            raise OutsideSubset("complex element store")
+            raise OutsideSubset("complex element store into a real array")
         if elem == "real":
             return to_real(v)
         if elem == "int":
